@@ -130,9 +130,10 @@ def run(chk):
             variants.append(("respell", gen.respell(rng, rng.choice([exp, hdm]), p=rng.choice([0.3, 0.6, 1.0]))))
         for i in range(2):
             variants.append(("defaults", gen.hoist_defaults(rng, gen.respell(rng, rng.choice([exp, hdm]), p=0.4))))
+        variants.append(("keyorder", gen.shuffle_keys(rng, rng.choice([v for _, v in variants]))))
         nfull = count_fields(exp)
         for kind, v in variants:
-            chk.case(v, nontrivial=count_fields(v) < nfull or "defaults" in v or kind == "symmetric")
+            chk.case(v, nontrivial=count_fields(v) < nfull or "defaults" in v or kind in ("symmetric", "keyorder"))
             chk.count("variant_" + kind)
             rep = dict(op="fromdict", document=v, kind=kind, reference=exp)
             r = resolve(v)
